@@ -190,6 +190,14 @@ impl Ctx {
     Some(unix)
   }
 
+  fn other_string_entry_points(input: &str) -> Vec<(&'static str, Result<Option<Timestamp>, vh::panicmon::PanicRec>)> {
+    vec![
+      ("from_str", catch(|| input.parse::<Timestamp>().ok())),
+      ("try_from_str", catch(|| Timestamp::try_from(input).ok())),
+      ("try_from_string", catch(|| Timestamp::try_from(input.to_string()).ok())),
+    ]
+  }
+
   /// One RFC 3339 string built from components; `expect` = the instant it denotes.
   fn parse_case(&mut self, c: &Civil, off: Option<i64>, frac: &str, lt: bool, lz: bool) {
     let input = render(c, off, frac, lt, lz);
@@ -219,6 +227,17 @@ impl Ctx {
         if (MIN..=MAX).contains(&denotes) && c.s < 60 {
           self.rep.inc("parse_rejected_in_range");
         }
+        // the other string entry points are the same parser: what one refuses none may accept
+        for (name, r) in Self::other_string_entry_points(&input) {
+          match r {
+            Err(p) => self.rep.violation(&format!("{}-panic@{}", name, p.file_only()), &p.msg, json!({"input":input})),
+            Ok(None) => {}
+            Ok(Some(t)) => {
+              self.check_accepted(name, &input, t);
+              self.rep.violation(&format!("entry-points-disagree:{}", name), &format!("{}({:?}) accepted what Timestamp::parse refuses", name, input), json!({"input":input,"denotes_unix":denotes}));
+            }
+          }
+        }
       }
       Ok(Ok(ts)) => {
         self.rep.inc("parse_accepted");
@@ -236,6 +255,24 @@ impl Ctx {
             );
           }
         }
+        // FromStr / TryFrom<&str> / TryFrom<String> must agree with parse
+        for (name, r) in Self::other_string_entry_points(&input) {
+          match r {
+            Err(p) => self.rep.violation(&format!("{}-panic@{}", name, p.file_only()), &p.msg, json!({"input":input})),
+            Ok(Some(t2)) if t2 == ts => {}
+            Ok(other) => {
+              if let Some(t2) = other {
+                self.check_accepted(name, &input, t2);
+              }
+              self.rep.violation(
+                &format!("entry-points-disagree:{}", name),
+                &format!("{}({:?}) = {:?} but Timestamp::parse gives unix {}", name, input, other.map(|t| t.to_unix()), ts.to_unix()),
+                json!({"input":input,"denotes_unix":denotes}),
+              );
+            }
+          }
+        }
+        self.rep.inc("string_entry_points_compared");
         // serde path must agree with parse
         let j = format!("\"{}\"", input);
         match catch(|| Timestamp::from_json(&j)) {
